@@ -31,6 +31,7 @@ LinFails(e) == Tag(Len(e.ra) = Len(e.rx) /\ Len(e.rb) = Len(e.rx) /\ \A i \in 1.
 
 Fails(e) == CASE e.ev = "fec" -> FecFails(e)
               [] e.ev = "feclin" -> LinFails(e)
+              [] e.ev = "hang" -> <<e.prop \o ".hang">>    \* a call that never returned (recorded by the watchdog of the harness)
               [] OTHER -> <<"unknown-event">>
 Init == l = 1 /\ nfail = 0
 Next == /\ l <= Len(Tr)
